@@ -84,6 +84,15 @@ func prepareTV(id string) (int, error) {
 				return n, tvErr(name, err, o)
 			}
 			n++
+		case strings.HasSuffix(name, ".xgo") && strings.HasPrefix(name, "kf_"):
+			// template of an open known finding (see the .gostyle case below): compiled in isolation
+			out := filepath.Join(dir, "kf_tmp_out.go")
+			c := exec.Command(helper, "file", filepath.Join(src, name), out)
+			c.Env = goEnv()
+			c.Dir = hdir
+			o, err := c.CombinedOutput()
+			tvKF[id] = append(tvKF[id], tvKFResult{Template: name, Failed: err != nil, Output: strings.TrimSpace(string(o))})
+			os.Remove(out)
 		case strings.HasSuffix(name, ".xgo"):
 			out := filepath.Join(dir, "xgo_"+strings.TrimSuffix(name, ".xgo")+".go")
 			c := exec.Command(helper, "file", filepath.Join(src, name), out)
